@@ -49,6 +49,8 @@ KnownList(l) == \A j \in DOMAIN l : l[j].k \in Keys
 Report(cls, detail) == IF cls = "" THEN TRUE ELSE PrintT(<<"VERDICT", i, cls, detail>>)
 First(cs) == IF \E j \in DOMAIN cs : cs[j] # "" THEN cs[CHOOSE j \in DOMAIN cs : cs[j] # "" /\ \A m \in 1..(j-1) : cs[m] = ""] ELSE ""
 
+SameMeaning(f, g) == \A k \in Keys, l \in Labels : AcceptKL(f, k, l) = AcceptKL(g, k, l)
+
 (* ------------------------------------------------------------------ stages *)
 NewStage(kind, cache) == [kind |-> kind, cache |-> cache, box |-> <<>>, hand |-> <<>>, full |-> FALSE,
                           inq |-> <<>>, fed |-> FALSE, feeder |-> "", stopping |-> FALSE, closed |-> FALSE,
@@ -137,7 +139,8 @@ Remember(ls, l) == IF Len(ls) >= 32 THEN Tail(ls) \o <<l>> ELSE ls \o <<l>>
 RecentLists(c) == {caches[c].lists[j] : j \in DOMAIN caches[c].lists}
 
 \* readers in flight on cache c see every content the cache passes through until they return (C15)
-AddSeen(c, it) == [pend EXCEPT !.rd = [r \in DOMAIN @ |-> IF @[r].cache = c THEN [@[r] EXCEPT !.seen = @ \cup {it}] ELSE @[r]]]
+AddSeen(c, it) == [pend EXCEPT !.rd = [r \in DOMAIN @ |-> IF @[r].cache = c THEN [@[r] EXCEPT !.seen = @ \cup {it}] ELSE @[r]],
+                               !.wr = [w \in DOMAIN @ |-> IF @[w].cache = c THEN [@[w] EXCEPT !.n = @ + 1] ELSE @[w]]]
 
 SyncClass(c, list, evs) ==
   IF ~KnownList(list) \/ ~KnownEvs(evs) THEN "foreign-object"
@@ -164,7 +167,7 @@ NetInit == [lists |-> <<>>, consumed |-> 0, wat |-> <<>>, sess |-> <<>>, expectS
 
 EvBegin == /\ buf' = R.buf
            /\ caches' = <<>> /\ stages' = <<>> /\ pubs' = <<>> /\ fsubs' = <<>> /\ ctls' = <<>> /\ mons' = <<>>
-           /\ pend' = [mon |-> "", monmode |-> "", consumer |-> <<>>, closedTops |-> {}, closedAll |-> FALSE, srv |-> <<>>, rd |-> <<>>, kept |-> <<>>, wanted |-> <<>>]
+           /\ pend' = [mon |-> "", monmode |-> "", consumer |-> <<>>, closedTops |-> {}, closedAll |-> FALSE, srv |-> <<>>, rd |-> <<>>, kept |-> <<>>, wanted |-> <<>>, wr |-> <<>>]
            /\ net' = [NetInit EXCEPT !.period = IF "period_us" \in DOMAIN R THEN R.period_us ELSE 0, !.variant = R.variant]
 
 EvCacheNew == /\ Report(IF X(1) \notin Filters THEN "unknown-filter" ELSE "", [cache |-> A, filter |-> X(1)])
@@ -274,7 +277,7 @@ EvPubStopping == /\ Report(StopClass(A), [stopping |-> A, closed |-> pend.closed
 
 \* fsub.new(parent, cache, filter, deferred)
 EvFsubNew == /\ fsubs' = (A :> [parent |-> X(1), cache |-> X(2), f |-> X(3), def |-> X(4), pdone |-> FALSE, pend |-> FALSE,
-                                 ready |-> FALSE, outq |-> <<>>, supplied |-> FALSE]) @@ fsubs
+                                 ready |-> FALSE, outq |-> <<>>, supplied |-> FALSE, req |-> X(3)]) @@ fsubs
              /\ stages' = (A :> NewStage("fsub", X(2))) @@ stages
              /\ pend' = SetConsumer(X(1), "lib")
              /\ UNCHANGED <<buf, caches, pubs, ctls, mons, net>>
@@ -304,13 +307,14 @@ EvFsubReady ==
   /\ Report(First(<<IF fs.ready THEN "ready-twice" ELSE "",
                     IF ~fs.pdone \/ ~IsReady(fs.parent) THEN "ready-before-parent" ELSE "",
                     IF fs.def /\ ~fs.supplied THEN "deferred-ready-without-filter" ELSE "",
+                    \* the filter in force at readiness is the one last supplied through Refilter()
+                    IF fs.supplied /\ ~SameMeaning(caches[fs.cache].f, fs.req) THEN "ready-with-wrong-filter" ELSE "",
                     IF ~ok THEN "ready-unsynced" ELSE "">>),
             [fsub |-> A, spec |-> fs, cache |-> caches[fs.cache].it, filter |-> caches[fs.cache].f, parent |-> caches[pc].it])
   /\ fsubs' = [fsubs EXCEPT ![A].ready = TRUE]
   /\ caches' = [caches EXCEPT ![fs.cache].mark = caches[fs.cache].nlist]
   /\ UNCHANGED <<buf, stages, pubs, ctls, mons, pend, net>>
 
-SameMeaning(f, g) == \A k \in Keys, l \in Labels : AcceptKL(f, k, l) = AcceptKL(g, k, l)
 
 \* fsub.refilter(filter, isNew, parentNotReadyYet, ready, pending)
 EvFsubRefilter ==
@@ -318,7 +322,7 @@ EvFsubRefilter ==
   /\ Report(First(<<IF X(3) # ~fs.pdone \/ X(4) # fs.ready \/ X(5) # fs.pend THEN "flag-mismatch" ELSE "",
                     IF ~X(2) /\ ~SameMeaning(fs.f, X(1)) THEN "equal-filters-differ" ELSE "">>),
             [fsub |-> A, spec |-> fs, logged |-> R.x])
-  /\ fsubs' = [fsubs EXCEPT ![A].supplied = TRUE,
+  /\ fsubs' = [fsubs EXCEPT ![A].supplied = TRUE, ![A].req = X(1),
                             ![A].pend = IF ~fs.pdone THEN TRUE ELSE @,
                             ![A].f = IF X(2) THEN X(1) ELSE @]
   /\ UNCHANGED <<buf, caches, stages, pubs, ctls, mons, pend, net>>
@@ -611,6 +615,13 @@ EvCtlFinal ==
                  IF ~R.done THEN "shutdown-timeout" ELSE "">>),
          [final |-> R, list_failure_injected |-> net.expectStop]) /\ Skip
 
+(* ---- a driver-level cache operation is one atomic step (C15) ---- *)
+EvWrCall == /\ pend' = [pend EXCEPT !.wr = (A :> [cache |-> R.cache, n |-> 0]) @@ @]
+            /\ UNCHANGED <<buf, caches, stages, pubs, fsubs, ctls, mons, net>>
+EvWrRet == /\ Report(IF A \in DOMAIN pend.wr /\ pend.wr[A].n # 1 THEN "operation-not-atomic" ELSE "",
+                     [writer |-> A, mutations_between_call_and_return |-> IF A \in DOMAIN pend.wr THEN pend.wr[A].n ELSE -1])
+           /\ Skip
+
 (* ---- concurrent cache readers (C15) ---- *)
 EvRdCall ==
   /\ pend' = [pend EXCEPT !.rd = (A :> [cache |-> R.cache, op |-> R.op, k |-> R.k, seen |-> {caches[R.cache].it}]) @@ @]
@@ -692,6 +703,8 @@ Dispatch ==
     [] e = "cb"               -> EvCb
     [] e = "leak"             -> EvLeak
     [] e = "blocked"          -> EvBlocked
+    [] e = "wr.call"          -> EvWrCall
+    [] e = "wr.ret"           -> EvWrRet
     [] e = "rd.call"          -> EvRdCall
     [] e = "rd.ret"           -> EvRdRet
     [] e = "rd.recheck"       -> EvRdRecheck
@@ -725,7 +738,7 @@ Dispatch ==
 
 Init == /\ i = 1 /\ buf = 100
         /\ caches = <<>> /\ stages = <<>> /\ pubs = <<>> /\ fsubs = <<>> /\ ctls = <<>> /\ mons = <<>>
-        /\ pend = [mon |-> "", monmode |-> "", consumer |-> <<>>, closedTops |-> {}, closedAll |-> FALSE, srv |-> <<>>, rd |-> <<>>, kept |-> <<>>, wanted |-> <<>>]
+        /\ pend = [mon |-> "", monmode |-> "", consumer |-> <<>>, closedTops |-> {}, closedAll |-> FALSE, srv |-> <<>>, rd |-> <<>>, kept |-> <<>>, wanted |-> <<>>, wr |-> <<>>]
         /\ net = NetInit
 
 Next == /\ i <= Len(Recs)
